@@ -876,6 +876,81 @@ func runC18FetcherCache(c *fw.Ctx, id string) {
 // that tunnels every one of them to one local TLS server counting the requests. Requests without any probing (0 runs,
 // 0 samples) through one Traceroute value, then through one Server: the address in every document is the provider's, and
 // inside the 2 h expiry the providers are asked exactly once - whichever object asks.
+// runC18RealtimeSlowNeighbour: a cold-cache batch on the REAL clock in which one address's resolver hangs until its
+// context ends while the others answer after 20 ms - also when their lookups start a little later than the slow one.
+// A slow or failed lookup never alters the rest: the quick addresses have their names, and a second batch gets them
+// from the cache. (Goroutines queued on a lock behind the slow lookup would freeze a virtual clock; here they cost
+// the quick addresses their names or about five seconds each.)
+func runC18RealtimeSlowNeighbour(c *fw.Ctx, id string) {
+	resetProcessState()
+	old := reversedns.LookupAddrFn
+	defer func() { reversedns.LookupAddrFn = old }()
+	slow := "198.51.78.1"
+	var mu sync.Mutex
+	queries := map[string]int{}
+	slowStarted := make(chan struct{})
+	var once sync.Once
+	reversedns.LookupAddrFn = func(ctx context.Context, addr string) ([]string, error) {
+		mu.Lock()
+		queries[addr]++
+		mu.Unlock()
+		if addr == slow {
+			once.Do(func() { close(slowStarted) })
+			select {
+			case <-ctx.Done():
+				return nil, ctx.Err()
+			case <-time.After(14 * time.Second): // harness escape hatch
+				return nil, errors.New("released by harness")
+			}
+		}
+		// the quick resolvers answer once the slow lookup is under way
+		select {
+		case <-slowStarted:
+		case <-time.After(2 * time.Second):
+		}
+		select {
+		case <-ctx.Done():
+			return nil, ctx.Err()
+		case <-time.After(20 * time.Millisecond):
+		}
+		return namesFor(addr), nil
+	}
+	ips := []net.IP{net.ParseIP(slow).To4()}
+	for i := 2; i <= 5; i++ {
+		ips = append(ips, net.ParseIP(fmt.Sprintf("198.51.78.%d", i)).To4())
+	}
+	t0 := time.Now()
+	got, _ := reversedns.GetReverseDnsForIPs(ips)
+	el := time.Since(t0)
+	c.Nontrivial("realtime-slow-neighbour")
+	c.Count("slow_neighbour_batch_ms", int(el.Milliseconds()))
+	for _, ip := range ips[1:] {
+		if fmt.Sprint(got[string(ip)]) != fmt.Sprint(namesFor(ip.String())) {
+			c.Violate("C18", "slow-lookup-alters-others", fmt.Sprintf("%s: %s has names %v after a batch in which only %s was slow (batch took %v); its resolver answers %v after 20 ms", id, ip, got[string(ip)], slow, el.Round(10*time.Millisecond), namesFor(ip.String())), nil)
+			return
+		}
+	}
+	if el > 13*time.Second {
+		c.Violate("C08", "rdns-realtime-bound", fmt.Sprintf("%s: a batch with one stalled lookup took %v of real time; its timeout is 5 s", id, el.Round(100*time.Millisecond)), nil)
+	}
+	// second batch, quick addresses only: served from the cache
+	before := map[string]int{}
+	mu.Lock()
+	for k, v := range queries {
+		before[k] = v
+	}
+	mu.Unlock()
+	again, _ := reversedns.GetReverseDnsForIPs(ips[1:])
+	mu.Lock()
+	defer mu.Unlock()
+	for _, ip := range ips[1:] {
+		if queries[ip.String()] != before[ip.String()] || fmt.Sprint(again[string(ip)]) != fmt.Sprint(namesFor(ip.String())) {
+			c.Violate("C18", "cache-hit-requeried", fmt.Sprintf("%s: %s was looked up again (%d -> %d queries) or lost its names (%v) in the batch that followed", id, ip, before[ip.String()], queries[ip.String()], again[string(ip)]), nil)
+			return
+		}
+	}
+}
+
 func runC18ProductionPath(c *fw.Ctx, id string) {
 	resetProcessState()
 	const publicIP = "203.0.113.7"
@@ -990,6 +1065,8 @@ func checkC18() fw.Check {
 						cases = append(cases, fw.Case{ID: fmt.Sprintf("C18/request-enrich/%d", k), Bubble: true, Run: func(c *fw.Ctx) { runC18RequestEnrich(c, c.ID, k) }})
 					}
 					cases = append(cases, fw.Case{ID: "C18/production-path", Run: func(c *fw.Ctx) { runC18ProductionPath(c, c.ID) }})
+					// (first in the list: what it detects freezes the bubbles of the cases after it)
+					cases = append([]fw.Case{{ID: "C18/realtime-slow-neighbour", Run: func(c *fw.Ctx) { runC18RealtimeSlowNeighbour(c, c.ID) }}}, cases...)
 				}
 				cases = append(cases, fw.Case{ID: fmt.Sprintf("C18/fetcher-cache/%d", i), Bubble: true, Run: func(c *fw.Ctx) { runC18FetcherCache(c, c.ID) }})
 			}
